@@ -151,6 +151,26 @@ def run(pid, tier, seed, rng, t0):
         mc_stats = indicator_models(pid, tier)
     if pid in ENGINE_PROPS:
         mc_stats = engine_models(pid, tier)
+        # spec -> code: behaviours of the engine model (TLC simulation, every call with the state the
+        # specification expects after it) driven into a real Hexital and compared after every call
+        import replay_engine
+
+        behs, r = replay_engine.behaviours(40 if tier == "quick" else 700, 10, seed % 100000)
+        mc_stats.append({"name": "MC_EngineEmit (simulation, behaviours for replay)", "module": "MC_EngineEmit",
+                         "cfg": "MC_EngineEmit.cfg", "constants": "TF=3, MaxLen=4, MaxOps=2; menu and alphabet of MC_Engine",
+                         "distinct": len(behs), "states": r["states"], "wall": round(r["wall"], 1), "violated": []})
+        badb = [(b, m) for b, m in ((b, replay_engine.replay(b)) for b in behs) if m]
+        extra["spec_to_code_replayed_behaviours"] = len(behs)
+        extra["spec_to_code_calls_compared"] = sum(len(b["hist"]) for b in behs)
+        extra["spec_to_code_mismatches"] = len(badb)
+        extra["spec_to_code_sample"] = replay_engine.program(behs[len(behs) // 2]) if behs else None
+        for k, (b, m) in enumerate(badb[:3]):
+            os.makedirs(checklib.REPLAYS, exist_ok=True)
+            path = os.path.join(checklib.REPLAYS, f"{pid}_{seed}_model_{k}.json")
+            json.dump({"property": pid, "behaviour": b, "mismatch": m}, open(path, "w"))
+            print(f"VIOLATION property={pid} replay={path}")
+            print(f"  model behaviour {replay_engine.program(b)} cfg={b['cfg']}: {m[0]}")
+            rc_replay = 1
     if pid in MGR_PROPS:
         mc_stats, states = manager_models(pid, tier)
         if pid == "C15":
